@@ -232,6 +232,7 @@ func (bsp *batchSpanProcessor) ForceFlush(ctx context.Context) error {
 			}
 		} else if bsp.stopped.Load() {
 			// The batchSpanProcessor is Shutdown.
+			verifPoint("bsp.ff.stopch", ctx)
 			return nil
 		}
 
@@ -422,6 +423,7 @@ func (bsp *batchSpanProcessor) enqueueBlockOnQueueFull(ctx context.Context, sd R
 	case <-bsp.stopCh:
 		// Shutdown has begun: once the queue has been drained nothing
 		// receives from it anymore, do not block on it forever.
+		verifPoint("bsp.enq.stopped", sd)
 		return false
 	case <-ctx.Done():
 		return false
